@@ -157,6 +157,21 @@ pub struct TcpFlow {
     server_isn: Option<u32>,
 }
 
+/// Upper bound on what one direction of a flow may buffer while waiting for a complete
+/// HTTP head. A direction that exceeds it (an endless body-less stream, binary or encrypted
+/// data after the SYN) is given up: its data is released and later segments are ignored,
+/// so memory per flow and work per packet stay bounded whatever the connection carries.
+const MAX_BUFFERED_BYTES_PER_DIRECTION: usize = 256 * 1024;
+const MAX_BUFFERED_SEGMENTS_PER_DIRECTION: usize = 2048;
+
+fn exceeds_buffer_limit(segments: &[TcpData]) -> bool {
+    segments.len() > MAX_BUFFERED_SEGMENTS_PER_DIRECTION
+        || segments
+            .iter()
+            .fold(0usize, |total, segment| total.saturating_add(segment.data.len()))
+            > MAX_BUFFERED_BYTES_PER_DIRECTION
+}
+
 /// Quick check if HTTP data is complete for parsing (supports HTTP/1.x and HTTP/2)
 fn has_complete_http_data(data: &[u8], processors: &HttpProcessors) -> bool {
     // Strategy: Don't make early decisions about protocol due to TCP fragmentation
@@ -346,6 +361,13 @@ fn process_tcp_packet(
                             Err(_e) => {}
                         }
                     }
+                    if !flow.client_http_parsed && exceeds_buffer_limit(&flow.client_data) {
+                        debug!("CLIENT: no HTTP head within the buffer limit, giving up on this direction");
+                        flow.client_http_parsed = true;
+                    }
+                    if flow.client_http_parsed {
+                        flow.client_data = Vec::new();
+                    }
                 } else {
                     debug!("CLIENT: HTTP already parsed, discarding additional data");
                 }
@@ -367,6 +389,13 @@ fn process_tcp_packet(
                         }
                     } else {
                         debug!("SERVER: Data not complete yet, waiting for more");
+                    }
+                    if !flow.server_http_parsed && exceeds_buffer_limit(&flow.server_data) {
+                        debug!("SERVER: no HTTP head within the buffer limit, giving up on this direction");
+                        flow.server_http_parsed = true;
+                    }
+                    if flow.server_http_parsed {
+                        flow.server_data = Vec::new();
                     }
                 } else {
                     debug!("SERVER: HTTP already parsed, discarding additional data");
